@@ -260,6 +260,22 @@ func Eq(a, b *Term) *Term {
 	if a.S == b.S {
 		return True
 	}
+	if a.K == KStr {
+		// both sides are sequences of single characters (literals, str.from_code of a byte, ite between such):
+		// compare them position by position as bytes — no string theory needed
+		if ca, ok := charCodes(a); ok {
+			if cb, ok := charCodes(b); ok {
+				if len(ca) != len(cb) {
+					return False
+				}
+				cs := make([]*Term, len(ca))
+				for i := range ca {
+					cs[i] = Eq(ca[i], cb[i])
+				}
+				return And(cs...)
+			}
+		}
+	}
 	if a.K == KBool {
 		if a.Const {
 			if a.B {
@@ -278,6 +294,55 @@ func Eq(a, b *Term) *Term {
 }
 
 func Neq(a, b *Term) *Term { return Not(Eq(a, b)) }
+
+// charCode: the byte value of a term that always denotes a one-character string over bytes.
+func charCode(t *Term) (*Term, bool) {
+	switch {
+	case t.K != KStr:
+		return nil, false
+	case t.Const:
+		if len(t.Str) == 1 {
+			return BV(uint64(t.Str[0]), 8), true
+		}
+	case t.Op == "str.from_code" && len(t.Args) == 1:
+		if x := t.Args[0]; x.Op == "bv2nat" && len(x.Args) == 1 && x.Args[0].K == KBV && x.Args[0].W == 8 {
+			return x.Args[0], true
+		}
+	case t.Op == "ite" && len(t.Args) == 3:
+		x, ok1 := charCode(t.Args[1])
+		y, ok2 := charCode(t.Args[2])
+		if ok1 && ok2 {
+			return Ite(t.Args[0], x, y), true
+		}
+	}
+	return nil, false
+}
+
+// charCodes: the bytes of a string term made only of one-character pieces (at most 256 of them), if it is one.
+func charCodes(t *Term) ([]*Term, bool) {
+	parts := []*Term{t}
+	if t.Op == "str.++" {
+		parts = t.Args
+	}
+	var out []*Term
+	for _, p := range parts {
+		if p.Const {
+			for i := 0; i < len(p.Str); i++ {
+				out = append(out, BV(uint64(p.Str[i]), 8))
+			}
+			continue
+		}
+		c, ok := charCode(p)
+		if !ok {
+			return nil, false
+		}
+		out = append(out, c)
+	}
+	if len(out) > 256 {
+		return nil, false
+	}
+	return out, true
+}
 
 // ---- bit-vectors ----
 
